@@ -14,7 +14,7 @@ POOLS = {
     "str": ["p", "q", "r", "s", "t"],
 }
 KINDS = [("scalar", 6), ("tuple2", 2), ("array", 2), ("bool", 1), ("str", 1),
-         ("dict", 1), ("int", 1)]
+         ("dict", 1), ("int", 1), ("ndarray", 1), ("intarray", 1)]
 
 
 class Scenario:
@@ -81,6 +81,10 @@ def gen_sweep(tape, max_n=40, kinds=None, allow_cases=True, max_args=4):
         if not seen:
             seen = [tuple(p[0] for p in pools)]
         cases = [dict(zip(case_args, c)) for c in seen]
+        if len(case_args) > 1:
+            # a dict is a mapping: each case may list its arguments in its own order
+            cases = [dict(reversed(list(c.items()))) if tape.flag(1, 3, "case-key-order") else c
+                     for c in cases]
     constants = {}
     for nm in tape.subset(["k", "m"], "consts", 1, 3):
         constants[nm] = tape.pick([3, 6, 9], "constval")
